@@ -38,7 +38,8 @@ func (cer *CER) Parse(m *diam.Message, localRole Role) (failedAVP *diam.AVP, err
 		return nil, err
 	}
 	if cer.InbandSecurityID != nil {
-		if v := cer.InbandSecurityID.Data.(datatype.Unsigned32); v != 0 {
+		// An AVP with this code from another vendor's name space decodes as opaque data.
+		if v, ok := cer.InbandSecurityID.Data.(datatype.Unsigned32); ok && v != 0 {
 			return nil, ErrNoCommonSecurity
 		}
 	}
